@@ -442,15 +442,8 @@ func descDepth(v ssa.Value, d int) string {
 		}
 		return s + "]"
 	case *ssa.Phi:
-		var es []string
-		for _, e := range x.Edges {
-			if e == x {
-				es = append(es, "self")
-			} else {
-				es = append(es, descDepth(e, d+3))
-			}
-		}
-		return "phi(" + strings.Join(es, " | ") + ")"
+		// stable, position-independent name: identity of a loop-carried value matters more than its expansion
+		return fmt.Sprintf("phi:%s@b%d", x.Comment, x.Block().Index)
 	case *ssa.MakeClosure:
 		return "closure:" + x.Fn.Name()
 	case *ssa.TypeAssert:
